@@ -127,6 +127,14 @@ def crafted(rng, tier):
         for declared in (50 + 4 * n, 50 + 4 * (1 << 22), (1 << 30) - 1, (1 << 31) - 1):
             shx = refesri.encode_header(1, [0] * 8, declared) + struct.pack(">ii", 50, 10) * n
             out.append(("index %d entries, declares %d words" % (n, declared), shp1, shx))
+            # ... beside a .shp whose header announces a length to match (both headers lie and agree), or far more
+            for shp_words in (declared * 4, (1 << 31) - 1):
+                if shp_words < (1 << 31):
+                    lying = shp1[:24] + struct.pack(">i", shp_words) + shp1[28:]
+                    out.append(("index %d entries declaring %d words beside a .shp declaring %d words" % (n, declared, shp_words), lying, shx))
+    for declared in (50 + 4 * (1 << 22), (1 << 31) - 1):
+        out.append(("headers only: .shx declares %d words, .shp declares 2^31-1" % declared,
+                    refesri.encode_header(1, [0] * 8, (1 << 31) - 1), refesri.encode_header(1, [0] * 8, declared)))
     return out
 
 
